@@ -241,6 +241,10 @@ func (fr *Frame) extraExternal(ins ssa.Instruction, fn *ssa.Function, c *ssa.Cal
 		nh := fx.s.freshConst("Hcsv", "(Array Ref "+ssrt+")")
 		fx.s.assume("true", fmt.Sprintf("(forall ((x Ref)) (! (=> (not (= (obj x) (obj %s))) (= (select %s x) (select %s x))) :pattern ((select %s x))))", r, nh, h, nh))
 		st.heaps[skey] = nh
+		if fx.hasAssigns && fx.quiet == 0 {
+			goal := fmt.Sprintf("(or (> (obj %s) %s) (forall ((x Ref)) (=> (= (obj x) (obj %s)) %s)))", r, fx.allocEntry, r, fx.assignSet.member(skey, "x", -1))
+			fx.oblige("frame", fr.obName()+"/frame/csv.Reader.Read", "the reader overwrites only its own record buffer", st, goal, ins.Pos(), fx.frameProps())
+		}
 		rem := st.ghost["csvrem"]
 		fx.s.assume(st.guard, fmt.Sprintf("(=> %s (> (select %s %s) 0))", okc, rem, r))
 		st.ghost["csvrem"] = fx.s.define("csvrem", "(Array Ref Int)", fmt.Sprintf("(store %s %s (ite %s (- (select %s %s) 1) (select %s %s)))", rem, r, okc, rem, r, rem, r))
